@@ -120,6 +120,7 @@ type GenOpts struct {
 	WantSpaces   float64
 	WantUnsafe   float64
 	WantCallback float64
+	ZeroBase     float64 // probability of starting from the zero value &Policy{} (never for C13: its quantifier is constructor-built policies)
 }
 
 func subset(r *RNG, xs []string, lo, hi int) []string {
@@ -306,6 +307,9 @@ func GenRecipe(r *RNG, opt GenOpts) Recipe {
 		rc.Base = r.Pick([]string{"strict", "strict", "striptags"})
 	default:
 		rc.Base = "new"
+	}
+	if r.Bool(opt.ZeroBase) {
+		rc.Base = "zero"
 	}
 	elPool := append(append([]string{}, stdEls...), customEls...)
 	if opt.Fresh != "" {
